@@ -209,7 +209,7 @@ def check_property(pid, tier, cache=True, only_groups=None):
                 known_by_group.setdefault(gn, []).append(('native', k['native_match']))
     log("== %s (%s tier): %d obligation groups: %s" % (pid, tier, len(gnames), ', '.join(gnames)))
     results, timing = runmod.run_groups(gnames, tier, known_by_group, log, cache=cache)
-    violations, undecided, crashes, downgraded = [], [], [], []
+    violations, undecided, crashes, downgraded, mismatches = [], [], [], [], []
     for gn in gnames:
         g = results[gn]
         grp = GROUPS[gn]
@@ -315,7 +315,7 @@ def check_property(pid, tier, cache=True, only_groups=None):
             path = replay_path(pid, first['job'])
             if verdict == 'mismatch':
                 write_json(path, dict(property=pid, group=gn, kind='mismatch', confirmation=conf))
-                crashes.append((gn, 'encoding disagrees with CPython on a replayed input: %s' % path))
+                mismatches.append((gn, 'encoding disagrees with CPython on a replayed input: %s' % path))
                 continue
             if verdict == 'violation':
                 write_json(path, dict(property=pid, group=gn, kind='relational' if conf.get('relation') else 'kernel', obligation=conf.get('obligation'),
@@ -357,6 +357,18 @@ def check_property(pid, tier, cache=True, only_groups=None):
             log("   note: listed finding no longer reproduces on this tree (%s)" % k.get('what'))
     for ln in known_lines:
         log(ln)
+
+    # a caller verified with a callee BY CONTRACT replays differently from the real code when the callee itself no longer
+    # meets that contract: if the callee's own contract group reports a violation in this check, the disagreement is
+    # explained by it (and reported there), it is not a defect of the encoding
+    CALLEE_GROUPS = ('get_tau_py.P', 'get_tau_pyx.P', 'gmd_py.P', 'gmd_prof_pyx.P', 'gmd_dist_pyx.P', 'dist_at_t_py.P',
+                     'dist_at_t_prof_pyx.P', 'dist_at_t_dist_pyx.P')
+    callee_violated = [v[0] for v in violations if v[0] in CALLEE_GROUPS]
+    for (gn, what) in mismatches:
+        if callee_violated:
+            log("   note: replay of %s disagrees with the real code because a callee it uses by contract violates that contract (%s)" % (gn, ', '.join(callee_violated)))
+        else:
+            crashes.append((gn, what))
 
     wall = time.time() - t0
     ev = build_evidence(pid, tier, P, gnames, results, timing, wall, violations, undecided, known_lines, downgraded)
